@@ -507,6 +507,72 @@ def r01_7(ctx: Ctx) -> None:
                    "outside the ancillary loop the gene registered is the gene evaluated", form=txt(call))
 
 
+def r01_9(ctx: Ctx) -> None:
+    """ the evaluation context holds *every* gene in range, hits or not """
+    func = ctx.fn(CP, "apply_cluster_rules")
+    cfg = CFG(func)
+    detects = [c for c in calls(func) if last_attr(c) == "detect"]
+    if len(detects) != 1:
+        raise AnalysisError("apply_cluster_rules: rule.detect(...) call not found")
+    arg = arg_of(detects[0], 1, "feature_by_id")
+    if not isinstance(arg, ast.Name):
+        ctx.cannot("R01.9", CP, detects[0], "apply_cluster_rules", "features argument", f"not a name: {txt(arg)}")
+        return
+    name = arg.id
+    lookups = [c for c in calls(func) if last_attr(c) == "get_cds_features_within_location"]
+    ok = len(lookups) == 1 and isinstance(kwarg(lookups[0], "with_overlapping"), ast.Constant) \
+        and kwarg(lookups[0], "with_overlapping").value is True
+    ctx.ob("R01.9", CP, lookups[0] if lookups else func, "apply_cluster_rules", "lookup includes overlapping genes", ok,
+           "genes that only partly lie in the cutoff range are still neighbours (distance is measured to the nearest base)",
+           form=txt(lookups[0])[:100] if lookups else "")
+    lookup_names = {t.id for n in walk_local(func) if isinstance(n, ast.Assign) and n.value in lookups
+                    for t in n.targets if isinstance(t, ast.Name)}
+    sources = [v for v in bound_from(func, name) if not (isinstance(v, ast.Subscript) and "info_by_range" in txt(v))]
+    sources = [v for v in sources if not isinstance(v, ast.Subscript)]
+    verdicts = []
+    for src in sources:
+        if isinstance(src, ast.DictComp):
+            gen = src.generators[0]
+            from_lookup = txt(gen.iter) in lookup_names or gen.iter in lookups
+            verdicts.append((from_lookup and not gen.ifs and len(src.generators) == 1,
+                             f"{{... for {txt(gen.target)} in {txt(gen.iter)}" + (" if " + txt(gen.ifs[0]) if gen.ifs else "") + "}"))
+        elif isinstance(src, ast.Dict) and not src.keys:
+            # filled in a loop: the store must execute on every iteration of a loop over the lookup result
+            stores = [n for n in walk_local(func) if isinstance(n, ast.Assign) and isinstance(n.targets[0], ast.Subscript)
+                      and txt(n.targets[0].value) == name]
+            good = bool(stores)
+            forms = []
+            for store in stores:
+                loops = enclosing_loops(store, stop=func)
+                loop = next((lp for lp in loops if isinstance(lp, ast.For) and (txt(lp.iter) in lookup_names or lp.iter in lookups)), None)
+                if loop is None:
+                    good = False
+                    forms.append(f"{stmt_key(store)} not in a loop over the lookup result")
+                    continue
+                head, sn = cfg.n(loop), cfg.n(store)
+                body = cfg.loop_body_nodes(loop)
+                starts = [d for d, lab in cfg.succ[head] if lab == "T"]
+                skipped = any(head in ({s0} | cfg.reach([s0], avoid=[sn], within=body | {head})) for s0 in starts if s0 != sn)
+                good = good and not skipped
+                forms.append(f"{stmt_key(store)} on every iteration: {not skipped}")
+            verdicts.append((good, "; ".join(forms)))
+        else:
+            verdicts.append((False, txt(src)[:80]))
+    ok = bool(verdicts) and all(v for v, _ in verdicts)
+    ctx.ob("R01.9", CP, detects[0], "apply_cluster_rules", "all genes in range are in the context", ok,
+           "the features handed to the rule evaluation are every gene returned by the range lookup, not only genes with hits "
+           "(a gene without hits can satisfy a negated cds(...) group and separates nothing from the distance test)",
+           form=" | ".join(f for _, f in verdicts))
+    res = arg_of(detects[0], 2, "results_by_id")
+    if isinstance(res, ast.Name):
+        srcs = [v for v in bound_from(func, res.id) if not isinstance(v, ast.Subscript)]
+        ok = bool(srcs) and all(isinstance(v, ast.DictComp) and "results_by_id" in txt(v) for v in srcs) or \
+            any(isinstance(n, ast.Assign) and isinstance(n.targets[0], ast.Subscript) and txt(n.targets[0].value) == res.id
+                and "results_by_id" in txt(n.value) for n in walk_local(func))
+        ctx.ob("R01.9", CP, detects[0], "apply_cluster_rules", "results restricted to genes in range", ok,
+               "the hits handed to the rule evaluation are those of the genes in range", form="; ".join(txt(v)[:80] for v in srcs))
+
+
 def run(ctx: Ctx) -> None:
     ctx.rule("R01.1", "in_range is strict distance < cutoff with the ring distance iff circular; cutoff role", floor=5)
     ctx.rule("R01.2", "negation reaches every verdict of every condition class", floor=12)
@@ -523,3 +589,5 @@ def run(ctx: Ctx) -> None:
     r01_5(ctx)
     r01_6(ctx)
     r01_7(ctx)
+    ctx.rule("R01.9", "the evaluation context contains every gene in range, with or without hits", floor=3)
+    r01_9(ctx)
